@@ -56,7 +56,7 @@ impl Value {
 		match self {
 			Self::Null => serde_json::Value::Null,
 			Self::Boolean(b) => serde_json::Value::Bool(b),
-			Self::Number(n) => serde_json::Value::Number(n.into()),
+			Self::Number(n) => serde_json::Value::Number(number_into_serde_json(n)),
 			Self::String(s) => serde_json::Value::String(s.into_string()),
 			Self::Array(a) => {
 				serde_json::Value::Array(a.into_iter().map(Value::into_serde_json).collect())
@@ -67,6 +67,32 @@ impl Value {
 					.collect(),
 			),
 		}
+	}
+}
+
+/// Converts a number into a [`serde_json::Number`].
+///
+/// Integers are converted exactly. Other numbers are converted through the
+/// standard library's correctly rounded float parser: handing the text to
+/// `serde_json`'s own number parser (as `json_number`'s conversion does) loses
+/// precision unless its `float_roundtrip` feature is enabled.
+fn number_into_serde_json(n: crate::NumberBuf) -> serde_json::Number {
+	if let Some(u) = n.as_u64() {
+		return u.into();
+	}
+
+	if let Some(i) = n.as_i64() {
+		return i.into();
+	}
+
+	match n
+		.as_str()
+		.parse()
+		.ok()
+		.and_then(serde_json::Number::from_f64)
+	{
+		Some(f) => f,
+		None => n.into(),
 	}
 }
 
